@@ -55,6 +55,9 @@ pub fn pool() -> Vec<Op> {
     // so that a bulk call on the other source can carry two entries of node 1 more than an
     // hour apart whose fate depends on the order they are folded into the set (C02-g)
     p.push(Op::ins(3, ts_min(205, 0, 1)));
+    // a delete carrying exactly the stamp of a put of the same id (stamps are arbitrary in
+    // this property): on a tie the set prefers the insert while will_apply refuses it (C02-i)
+    p.push(Op::del(1, ts_min(200, 0, 1)));
     p
 }
 
